@@ -81,9 +81,11 @@ def build_props(PROPS):
         level_note='A1, A7. The wording of the messages (that the text of errors[k] is about code k) is checked for order and non-emptiness only.',
         trusted_base=TB_COMMON, technique=TECH)
     PROPS['C16'] = dict(
-        level='proof', quick=ALL(E_HOST + E_LIT), thorough=[],
+        level='proof', quick=ALL(E_HOST + E_LIT),
+        thorough=ALL(['email_822_host+extra', 'email_822_literal+extra', 'email_5321_host+extra', 'email_5321_literal+extra', 'email_5322_host+extra', 'email_5322_literal+extra',
+                      'eav_result_free+extra', 'eav_free+extra', 'eav_is_email+extra']),
         level_text='Postconditions of the four e-mail functions: at most one flag; on acceptance exactly the flag of the path taken (host name / IPv4 / IPv6 by family); no flag when a half is syntactically invalid; result code 0 / class / negative as in the property; record fresh and fully initialised.',
-        level_note='EAV_EXTRA build (lpart/domain copies) is covered by the thorough tier when the variant jobs are registered; A2, A3.',
+        level_note='The EAV_EXTRA sentence of the property is decided in the thorough tier only (the three ASCII e-mail functions, eav_result_free, eav_free, eav_is_email built with -DEAV_EXTRA: lpart / domain are strndup copies of exactly the two halves, without brackets for literals, NULL when no flag is set, released by eav_result_free); the 6531 function has no EAV_EXTRA job. A2, A3.',
         trusted_base=TB_COMMON, technique=TECH)
     PROPS['C18'] = dict(
         level='proof',
@@ -98,10 +100,10 @@ def build_props(PROPS):
         level_note='A7 (assumed library contract), A2.',
         trusted_base=TB_COMMON, technique=TECH)
 
-    SAFE = ['safe_is_822_local', 'safe_is_5321_local', 'safe_is_5322_local', 'safe_is_ascii_domain', 'safe_is_ipv4']
+    SAFE = ['safe_is_822_local', 'safe_is_5321_local', 'safe_is_5322_local', 'safe_is_6531_local', 'safe_is_ascii_domain', 'safe_is_ipv4']
     PROPS['C06'] = dict(
         level='proof',
-        quick=ALL(SAFE) + ALL(['is_6531_local', 'utf8_decode_next', 'is_tld', 'is_ipaddr', 'is_utf8_domain', 'eav_is_email', 'eav_free', 'email_822_host', 'email_822_literal'], 'safety')
+        quick=ALL(SAFE) + ALL(['utf8_decode_next', 'is_tld', 'is_ipaddr', 'is_utf8_domain', 'eav_is_email', 'eav_free', 'email_822_host', 'email_822_literal'], 'safety')
               + ALL(['eav_init', 'eav_result_free', 'lifecycle']),
         thorough=ALL(['is_ipv6', 'is_special_domain_A', 'is_special_domain_B', 'email_5321_host', 'email_5322_host', 'email_6531_host', 'email_5321_literal', 'email_5322_literal', 'email_6531_literal', 'is_utf8_domain@idn', 'is_utf8_domain@idnkit'], 'safety')
                  + ALL(['lifecycle@idn', 'lifecycle@idnkit', 'eav_init@idn', 'eav_init@idnkit']),
@@ -117,7 +119,7 @@ def build_props(PROPS):
         level='proof', quick=ALL(['lemma_local', 'is_5321_local', 'is_822_local', 'is_5322_local', 'is_6531_local', 'email_822_host', 'email_5321_host', 'email_5322_host']),
         thorough=ALL(['email_822_literal', 'email_5321_literal', 'email_5322_literal']),
         level_text='Each scanner is proved equal to its specification automaton (C02/C03 jobs); the cross-mode statements are then lemmas about the automata, proved loop-free over a symbolic (state, character) pair: without DQUOTE and backslash the four automata move in lock step through the unquoted states; every live transition of the 5321 automaton is a transition of the 822 automaton; the domain halves of the three ASCII e-mail functions are proved against one and the same contract text.',
-        level_note='The step from "each code equals its automaton" + "the automata agree" to "the codes agree" is a two-line meta-argument. Equality of the *error code* across modes (not only of the decision) is covered by the per-code postconditions only as far as they pin the code (C15), not as a cross-mode obligation.',
+        level_note='The step from "each code equals its automaton" + "the automata agree" to "the codes agree" is a two-line meta-argument. Equality of the *error code* across modes follows from the per-code postconditions of the four scanners: every code is tied to a condition on the offending byte (non-ASCII / control / special or space / dot at the edge / double dot / quote), these conditions are mutually exclusive, and the scanners reject at the same byte (or, for a double dot, at one of two adjacent dots with the same code); this last step is an argument over the postconditions, not a CBMC obligation.',
         trusted_base=TB_COMMON, technique=TECH)
     PROPS['C14'] = dict(
         level='other',
